@@ -394,7 +394,12 @@ func (g *Gen) Wrapper(kid *R, depth int) *R {
 	case 16:
 		return &R{Op: "http", Kids: k1, I: []int64{int64(200 + g.r.intn(400))}}
 	case 17:
-		return &R{Op: "grpc", Kids: k1, I: []int64{int64(g.r.intn(18))}}
+		code := int64(g.r.intn(18))
+		if g.r.chance(15) {
+			// application-defined codes beyond the 17 gRPC defines
+			code = []int64{17, 42, 100, 1000}[g.r.intn(4)]
+		}
+		return &R{Op: "grpc", Kids: k1, I: []int64{code}}
 	case 18:
 		return &R{Op: "secondary", Kids: []*R{kid, g.Tree(min(depth-1, 3))}}
 	case 19:
